@@ -368,6 +368,156 @@ fn run_op(tx: &mut Transaction, op: &Value) -> Value {
                 Err(e) => json!({ "err": e.to_string() }),
             }
         }
+        "bip32" => {
+            // library vs an independent BIP32 (HMAC-SHA512, k256 arithmetic, Base58Check) along a path of indices; neutering; string corruption
+            use hmac::{Hmac, Mac, NewMac};
+            use k256::elliptic_curve::sec1::ToEncodedPoint;
+            use sha2::{Digest, Sha256, Sha512};
+            fn h512(key: &[u8], data: &[u8]) -> Vec<u8> {
+                let mut m = Hmac::<Sha512>::new_from_slice(key).unwrap();
+                m.update(data);
+                m.finalize().into_bytes().to_vec()
+            }
+            fn pubc(k: &[u8]) -> Vec<u8> {
+                k256::SecretKey::from_be_bytes(k).unwrap().public_key().to_encoded_point(true).as_bytes().to_vec()
+            }
+            fn h160(b: &[u8]) -> Vec<u8> {
+                use ripemd160::Ripemd160;
+                Ripemd160::digest(&Sha256::digest(b)).to_vec()
+            }
+            fn ser(version: u32, depth: u8, fp: &[u8], index: u32, chain: &[u8], key: &[u8]) -> String {
+                let mut b = version.to_be_bytes().to_vec();
+                b.push(depth);
+                b.extend_from_slice(fp);
+                b.extend_from_slice(&index.to_be_bytes());
+                b.extend_from_slice(chain);
+                if key.len() == 32 {
+                    b.push(0);
+                }
+                b.extend_from_slice(key);
+                let c = Sha256::digest(&Sha256::digest(&b));
+                b.extend_from_slice(&c[0..4]);
+                bs58::encode(b).into_string()
+            }
+            let seed = hx(&op["seed"]);
+            let path: Vec<u32> = op["path"].as_array().unwrap().iter().map(|v| v.as_u64().unwrap() as u32).collect();
+            let mut problems: Vec<String> = vec![];
+            let mut corrupt: Vec<String> = vec![];
+            let i = h512(b"Bitcoin seed", &seed);
+            let (mut k, mut c) = (i[0..32].to_vec(), i[32..64].to_vec());
+            let (mut depth, mut fp, mut idx) = (0u8, vec![0u8; 4], 0u32);
+            let mut lib = match ExtendedPrivateKey::from_seed(&seed) {
+                Ok(x) => x,
+                Err(e) => return json!({ "err": e.to_string() }),
+            };
+            let mut step = 0;
+            loop {
+                let want_prv = ser(0x0488ade4, depth, &fp, idx, &c, &k);
+                let want_pub = ser(0x0488b21e, depth, &fp, idx, &c, &pubc(&k));
+                let got_prv = lib.to_string().unwrap_or_default();
+                let xpub = ExtendedPublicKey::from_xpriv(&lib);
+                let got_pub = xpub.to_string().unwrap_or_default();
+                if got_prv != want_prv {
+                    problems.push(format!("step {}: xprv {} != reference {}", step, got_prv, want_prv));
+                }
+                if got_pub != want_pub {
+                    problems.push(format!("step {}: xpub {} != reference {}", step, got_pub, want_pub));
+                }
+                // string round trips
+                match ExtendedPrivateKey::from_string(&got_prv).and_then(|x| x.to_string()) {
+                    Ok(s2) if s2 == got_prv => {}
+                    other => problems.push(format!("step {}: xprv string does not round-trip: {:?}", step, other.map_err(|e| e.to_string()))),
+                }
+                match ExtendedPublicKey::from_string(&got_pub).and_then(|x| x.to_string()) {
+                    Ok(s2) if s2 == got_pub => {}
+                    other => problems.push(format!("step {}: xpub string does not round-trip: {:?}", step, other.map_err(|e| e.to_string()))),
+                }
+                // corruption: every byte position of the 82-byte payload, one bit flipped, must be rejected
+                for (label, text) in [("xprv", &want_prv), ("xpub", &want_pub)] {
+                    let raw = bs58::decode(text.as_str()).into_vec().unwrap();
+                    for pos in 0..raw.len() {
+                        let mut t = raw.clone();
+                        t[pos] ^= 1;
+                        let st = bs58::encode(t).into_string();
+                        let accepted = catch_unwind(AssertUnwindSafe(|| if label == "xprv" { ExtendedPrivateKey::from_string(&st).is_ok() } else { ExtendedPublicKey::from_string(&st).is_ok() }));
+                        if !matches!(accepted, Ok(false)) {
+                            corrupt.push(format!("{}@step{}:byte{}", label, step, pos));
+                        }
+                    }
+                }
+                if step >= path.len() {
+                    break;
+                }
+                let index = path[step];
+                // neutered derivation
+                let pub_child = xpub.derive(index);
+                if index >= 0x80000000 {
+                    if pub_child.is_ok() {
+                        problems.push(format!("step {}: hardened derivation from xpub accepted", step));
+                    }
+                }
+                // reference CKDpriv
+                let mut data = if index >= 0x80000000 { let mut d = vec![0u8]; d.extend_from_slice(&k); d } else { pubc(&k) };
+                data.extend_from_slice(&index.to_be_bytes());
+                let i = h512(&c, &data);
+                let parent = *k256::SecretKey::from_be_bytes(&k).unwrap().to_nonzero_scalar();
+                let il = match k256::SecretKey::from_be_bytes(&i[0..32]) { Ok(s) => *s.to_nonzero_scalar(), Err(_) => break };
+                let child = parent + il;
+                fp = h160(&pubc(&k))[0..4].to_vec();
+                k = child.to_bytes().to_vec();
+                c = i[32..64].to_vec();
+                depth += 1;
+                idx = index;
+                lib = match lib.derive(index) {
+                    Ok(x) => x,
+                    Err(e) => { problems.push(format!("step {}: derive failed: {}", step, e)); break }
+                };
+                if index < 0x80000000 {
+                    match pub_child.and_then(|x| x.to_string()) {
+                        Ok(sx) => {
+                            let neutered = ExtendedPublicKey::from_xpriv(&lib).to_string().unwrap_or_default();
+                            if sx != neutered {
+                                problems.push(format!("step {}: public derivation {} != neutered private derivation {}", step, sx, neutered));
+                            }
+                        }
+                        Err(e) => problems.push(format!("step {}: public derivation failed: {}", step, e)),
+                    }
+                }
+                step += 1;
+            }
+            problems.truncate(6);
+            let n_corrupt = corrupt.len();
+            corrupt.truncate(4);
+            json!({ "ok": { "problems": problems, "corrupted_strings_accepted": n_corrupt, "corrupted_examples": corrupt } })
+        }
+        "bip32_path" => {
+            // derive_from_path("m/<component>") must equal derive(index) with the independently parsed index (or fail when that is out of range)
+            let comp = op["component"].as_str().unwrap().to_string();
+            let (digits, hardened) = match comp.chars().last() {
+                Some('\'') | Some('h') | Some('H') => (&comp[..comp.len() - 1], true),
+                _ => (&comp[..], false),
+            };
+            let value: Option<u64> = if !digits.is_empty() && digits.chars().all(|c| c.is_ascii_digit()) { digits.parse::<u64>().ok() } else { None };
+            let want: Option<u32> = match value {
+                Some(v) if v < 0x80000000 => Some(v as u32 + if hardened { 0x80000000 } else { 0 }),
+                _ => None,
+            };
+            let mut problems: Vec<String> = vec![];
+            let xprv = ExtendedPrivateKey::from_seed(&[0x42u8; 32]).unwrap();
+            let xpub = ExtendedPublicKey::from_xpriv(&xprv);
+            let path = format!("m/{}", comp);
+            let got = xprv.derive_from_path(&path).and_then(|x| x.to_string()).ok();
+            let exp = want.and_then(|i| xprv.derive(i).and_then(|x| x.to_string()).ok());
+            if got != exp {
+                problems.push(format!("xprv derive_from_path({}) = {:?}, derive({:?}) = {:?}", path, got, want, exp));
+            }
+            let gotp = xpub.derive_from_path(&path).and_then(|x| x.to_string()).ok();
+            let expp = want.and_then(|i| xpub.derive(i).and_then(|x| x.to_string()).ok());
+            if gotp != expp {
+                problems.push(format!("xpub derive_from_path({}) = {:?}, derive({:?}) = {:?}", path, gotp, want, expp));
+            }
+            json!({ "ok": { "problems": problems } })
+        }
         "hash" => {
             let data = hx(&op["input"]);
             let key = op.get("key").map(|k| hx(k)).unwrap_or_default();
